@@ -519,14 +519,15 @@ func expandRequestData(testCase *conformancev1.TestCase) error {
 				// it's the right size
 				break
 			}
-			if adjustCount >= 2 {
-				// Oof. If we have to adjust it more than 2x, then we're at a weird boundary
-				// condition that can't easily be expanded to the exact size. This is highly
+			if adjustCount >= 3 {
+				// Oof. If we have to adjust it more than 3x, then we're at a weird boundary
+				// condition that can't be expanded to the exact size. This is highly
 				// unlikely, but can happen if adding the one byte of padding causes the data
 				// length to suddenly require one more byte to encode as a varint. In that
 				// case, adding one byte of data adds two bytes to the size. So if we were
 				// only one byte away from the desired size, the padded size pushes us one
-				// byte over.
+				// byte over. (Two adjustments are not enough to tell: crossing such a boundary
+				// once on the way up and once on the way down still converges with a third.)
 				return fmt.Errorf("request message #%d: can't pad to exactly %d bytes; closest we can get is %d",
 					i+1, totalSize, size)
 			}
@@ -538,8 +539,13 @@ func expandRequestData(testCase *conformancev1.TestCase) error {
 				bytesVal = append(bytesVal, padding...)
 			} else {
 				if -delta > int64(len(bytesVal)) {
-					return fmt.Errorf("request message #%d: can't shrink to exactly %d bytes; without any padding it is still %d bytes",
-						i+1, totalSize, size-len(bytesVal))
+					if len(bytesVal) == 0 {
+						return fmt.Errorf("request message #%d: can't shrink to exactly %d bytes; without any padding it is still %d bytes",
+							i+1, totalSize, size)
+					}
+					// removing all of the padding also removes the field's tag and length
+					// prefix, so drop everything and measure again
+					delta = -int64(len(bytesVal))
 				}
 				bytesVal = bytesVal[:len(bytesVal)+int(delta)]
 			}
